@@ -107,7 +107,7 @@ example : run 2 demoIx none [.lineCol 0, .lineCol 7, .lineCol 7, .lineCol 3, .ro
     = [.lc 1 1, .lc 4 1, .lc 4 1, .lc 2 2, .rt 3 1 (some 5), .opt (some 5), .opt (some 7), .num 4,
        .lc 4 4294967291] := by decide
 example : ∀ q ∈ [Query.lineCol 0, .roundTrip 5, .toOffset 3 1], QueryOk q := by
-  intro q hq; simp at hq; rcases hq with h | h | h <;> subst h <;> simp [QueryOk, USIZE, U32_MAX]
+  intro q hq; simp at hq; rcases hq with h | h | h <;> subst h <;> simp [QueryOk, USIZE]
 
 /-- `line_start` and `line_count` are the naive scan's. -/
 theorem line_start_exact (text : List Byte) (ix : LineIndex) (hb : build text = some ix)
@@ -123,27 +123,12 @@ theorem line_start_exact (text : List Byte) (ix : LineIndex) (hb : build text = 
 
 example : Lines.lineStart demo 3 = some 5 ∧ Lines.lineCount demo = 4 := by decide
 
-/-- `to_offset` full statement: for all `usize` lines and columns the model equals the naive
-definition.  NOT asserted — refuted below. -/
-def to_offset_exact_full_statement : Prop :=
-  ∀ (text : List Byte) (ix : LineIndex), build text = some ix →
-    ∀ line column, line < USIZE → column < USIZE →
-      LinesM.toOffset ix line column = Lines.toOffset text line column
-
-/-- Refutation witness (finding F10): on `"a\nbc"`, `to_offset(2, usize::MAX)` computes
-`2 + (2^64-1) - 1` in wrapping arithmetic and answers `Some(0)`; the naive definition rejects it.
-(Replayed through the harness: corpus/C12/finding-1.case.) -/
-theorem to_offset_exact_full_statement_refuted : ¬ to_offset_exact_full_statement := by
-  intro h
-  have := h [0x61, 0x0A, 0x62, 0x63] { starts := [0, 2], textLen := 4 } (by decide)
-    2 18446744073709551615 (by decide) (by decide)
-  revert this; decide
-
-/-- **`to_offset` is exact — partial.** Proved under the guard `column + u32::MAX ≤ 2^64` (so that
-`line_start + column` cannot wrap).  Missing: columns in `(2^64 - 2^32, 2^64)`, where the code's
-unchecked `+` wraps in release builds (panics in debug) and the full statement is false. -/
-theorem to_offset_exact_partial (text : List Byte) (ix : LineIndex) (hb : build text = some ix)
-    (line column : Nat) (hg : column + U32_MAX ≤ USIZE) :
+/-- **`to_offset` is exact**, for every line and every column (no side condition): the model of
+the `checked_add` code equals the naive definition, in particular a column so large that
+`line_start + column - 1` does not fit `usize` is rejected.  (Before fix 6400f9f the unchecked `+`
+wrapped there — former finding F10; regression: corpus/C12/finding-1.case.) -/
+theorem to_offset_exact (text : List Byte) (ix : LineIndex) (hb : build text = some ix)
+    (line column : Nat) :
     LinesM.toOffset ix line column = Lines.toOffset text line column := by
   have htl : text.length ≤ U32_MAX := by
     rcases Nat.lt_or_ge U32_MAX text.length with hl | hl
@@ -151,11 +136,10 @@ theorem to_offset_exact_partial (text : List Byte) (ix : LineIndex) (hb : build 
     · exact hl
   rw [build_eq text htl] at hb
   simp only [Option.some.injEq] at hb; subst hb
-  apply LinesP.toOffset_eq
-  intro s hs
-  have := lineStart_le_u32 text htl line s hs
-  omega
+  exact LinesP.toOffset_eq text htl line column
 
+example : LinesM.toOffset { starts := [0, 2], textLen := 4 } 2 18446744073709551615 = none := by
+  decide
 example : LinesM.toOffset demoIx 3 2 = some 6 ∧ Lines.toOffset demo 3 2 = some 6 := by decide
 
 /-- **Round trip.** For every in-bounds offset, from every admissible cache state and for every
